@@ -169,11 +169,45 @@ def run(ctx, canary=False):
             # noise scaled by s: loss, gradient and smoothness constant scale by exactly 1/s^2 (L1 by 1/s); every third run is the
             # last of three calls on one warm-started engine
             check_instance(ctx, inst, e, st, nscale=[1.0, 1e-3, 1e-7, 1e2][(i + k) % 4], history=((i + k) % 3 == 2))
+    large_spectrum(ctx, rng)
     ctx.sample({"instance": {k: insts[0][k] for k in ("ord", "sz", "p", "cliques")},
                 "measurements": [{k: m[k] for k in ("proj", "kind", "noise", "y")} for m in insts[0]["meas"]],
                 "spec": {k: exp[1][k] for k in ("group", "loss8", "l1x2", "lip4")} if 1 in exp else None})
     ctx.assumptions += ["noise scales restricted to {1/2, 1, 2} and integer query matrices so that the spec's loss is an integer",
                         "eigsh accuracy observed (1e-6 relative)", "custom callable metrics not covered"]
+
+
+def large_spectrum(ctx, rng):
+    """Queries with more than 20 columns and a tightly clustered leading spectrum (per-cell weighted identities): the regime in
+    which an iterative eigen-solver that stops early under-estimates lambda_max. The Hessian of the squared loss for a single
+    measurement on its clique is Q^T Q / noise^2, computed here densely."""
+    from scipy import sparse
+    from scipy.sparse.linalg import aslinearoperator
+    from mbi import FactoredInference
+    for n in (24, 40, 64):
+        for form in ("sparse", "dense", "operator", "sparse+total"):
+            w = 1.0 + 1e-3 * np.arange(n) / n + 1e-5 * np.array([rng.random() for _ in range(n)])
+            noise = rng.choice([0.5, 1.0, 3.0])
+            Qd = np.diag(w)
+            if form == "sparse+total":
+                Qd = np.vstack([Qd, 0.01 * np.ones((1, n))])
+            Q = {"sparse": sparse.csr_matrix(Qd), "dense": Qd, "operator": aslinearoperator(sparse.csr_matrix(Qd)), "sparse+total": sparse.csr_matrix(Qd)}[form]
+            info = {"cells": n, "query": "weighted identity (%s)" % form, "noise": noise, "weights_head": w[:4].tolist()}
+            ctx.case(("large_spectrum", n, form, noise), nontrivial=True)
+            try:
+                dom = Domain(["a"], [n])
+                eng = FactoredInference(dom, iters=1)
+                meas = [(Q, np.zeros(Qd.shape[0]), noise, ("a",))]
+                fixed = eng.fix_measurements(meas)
+                eng._setup(fixed, total=10.0)
+                L = float(eng._lipschitz(fixed))
+                lam = float(np.linalg.eigvalsh(Qd.T @ Qd).max()) / noise ** 2
+            except Exception as ex:
+                ctx.violation("loss machinery raised %r" % ex, info, {"kind": "crash"})
+                continue
+            if L < lam * (1 - 1e-9):
+                ctx.violation("objective differs from Loss.tla: smoothness constant %r is below the largest Hessian eigenvalue %r (relative deficit %.3g)" % (
+                    L, lam, (lam - L) / lam), info, {"kind": "lipschitz"})
 
 
 def check_instance(ctx, inst, e, st, nscale=1.0, history=False):
